@@ -128,122 +128,97 @@ def rule_projective_ops(fx, rep):
             rep.check(ok, 'GUARD', '%s:double:skeleton' % g, 'identity (Z = 0) is returned unchanged; otherwise Z3 = 2*Y1*Z1', why, fx.fn(p)['span'], construct=p)
         else:
             rep.fail('GUARD', '%s:double:anchor' % g, 'not found')
-        # ---------------------------------------------------- add_assign
-        p = fx.impl_method('CurveProjective', proj, 'add_assign')
-        if p and fx.body(p):
+        # ---------------------------------------------------- add_assign / add_assign_mixed (truth tables)
+        import tt
+        for nm_, other, mixed in (('add_assign', P2, False), ('add_assign_mixed', A2, True)):
+            p = fx.impl_method('CurveProjective', proj, nm_)
+            if not (p and fx.body(p)):
+                rep.fail('GUARD', '%s:%s:anchor' % (g, nm_), 'not found')
+                continue
             rep.fn(p)
             n += 1
             I = mk_interp(fx, proj, aff)
-            res = I.run(p, [('byref', P1), ('byref', P2)])
+            res = I.run(p, [('byref', P1), ('byref', other)])
             rep.sites(I.call_sites)
-            kinds = {}
+            kz1 = ('is_zero', tt.lin_key(Z1))
+            if mixed:
+                kz2 = ('infinity',)
+                kx, ky = tt.eq_key(X1, Lin({'x2': 1, 'Z1': 2})), tt.eq_key(Y1, Lin({'y2': 1, 'Z1': 3}))
+                raw = [tt.eq_key(X1, at('x2')), tt.eq_key(Y1, at('y2')), tt.eq_key(Z1, Lin())]
+                q_val = [at('x2'), at('y2'), Lin()]
+                formx = 'X1 = x2*Z1^2 and Y1 = y2*Z1^3'
+            else:
+                kz2 = ('is_zero', tt.lin_key(Z2))
+                kx, ky = tt.eq_key(u1, u2), tt.eq_key(s1, s2)
+                raw = [tt.eq_key(X1, X2), tt.eq_key(Y1, Y2), tt.eq_key(Z1, Z2)]
+                q_val = [X2, Y2, Z2]
+                formx = 'X1*Z2^2 = X2*Z1^2 and Y1*Z2^3 = Y2*Z1^3'
+            core_keys = [kz1, kz2, kx, ky]
             bad = []
-            for pth, ret, outs in res:
-                d = descr([lab_name(l) for l in pth.labels])
-                o = outs.get(1)
-                if d == [('is_zero', Z1, True)]:
-                    kinds['self=O'] = isinstance(o, Agg) and o.items == [X2, Y2, Z2]
-                    if not kinds['self=O']:
-                        bad.append('O + Q returns %r, expected Q' % (o,))
-                elif d == [('is_zero', Z1, False), ('is_zero', Z2, True)]:
-                    kinds['other=O'] = isinstance(o, Agg) and o.items == [X1, Y1, Z1]
-                    if not kinds['other=O']:
-                        bad.append('P + O returns %r, expected P' % (o,))
-                elif len(d) >= 3 and d[:2] == [('is_zero', Z1, False), ('is_zero', Z2, False)]:
-                    rest = d[2:]
-                    eqs = [x for x in rest if x[0] == 'eq']
-                    if len(eqs) != len(rest) or not eqs:
-                        bad.append('unexpected branch %r' % (rest,))
-                        continue
-                    # first test must be the x-test or y-test in cross-multiplied form
-                    seen = []
-                    for e in eqs:
-                        if same_pair(e[1], e[2], u1, u2):
-                            seen.append(('x', e[3]))
-                        elif same_pair(e[1], e[2], s1, s2):
-                            seen.append(('y', e[3]))
-                        else:
-                            seen.append(('?', e[1], e[2]))
-                            bad.append('the equal-point test compares %r with %r; representation independence needs X1*Z2^2 vs X2*Z1^2 and Y1*Z2^3 vs Y2*Z1^3' % (e[1], e[2]))
-                    if all(s[0] in ('x', 'y') for s in seen):
-                        both = dict((s[0], s[1]) for s in seen)
-                        if both.get('x') and both.get('y'):
-                            kinds['P=Q'] = (o == ('doubled', P1)) or (isinstance(o, tuple) and o[0] == 'doubled' and isinstance(o[1], Agg) and o[1].items == [X1, Y1, Z1])
-                            if not kinds['P=Q']:
-                                bad.append('P + P returns %r, expected double(P)' % (o,))
-                        else:
-                            kinds.setdefault('general', 0)
-                            kinds['general'] += 1
-                            if isinstance(o, tuple) and o and o[0] == 'doubled':
-                                bad.append('doubling used when the points differ (%r)' % (seen,))
-                            # the general branch must decide only after at least the failing test
+            present = tt.predicates(res)
+            for k_ in present:
+                if k_ not in core_keys and k_ not in raw:
+                    bad.append('the equal-point test compares %r; representation independence needs %s' % (k_[1:], formx))
+            keys = core_keys + [k_ for k_ in raw if k_ in present]
+
+            def kind(o):
+                if isinstance(o, Agg) and o.items == [X1, Y1, Z1]:
+                    return 'P'
+                if isinstance(o, Agg) and len(o.items) == 3 and o.items[:2] == q_val[:2] and (o.items[2] == q_val[2]):
+                    return 'Q'
+                if isinstance(o, tuple) and o and o[0] == 'doubled':
+                    inner = o[1]
+                    if isinstance(inner, Agg) and inner.items == [X1, Y1, Z1]:
+                        return 'dbl'
+                    if isinstance(inner, Agg) and inner.items == q_val:
+                        return 'dblQ'
+                    return 'dbl?'
+                if isinstance(o, tuple) and o and o[0] == 'identity':
+                    return 'O'
+                return 'general'
+            seen_kinds = set()
+            for env, cons in ([] if bad else tt.table(res, keys)):
+                # relations between the predicates: identical coordinates => the same point; Z1 = Z2 => same identity status
+                rawv = [env.get(k_) for k_ in raw]
+                if all(v is True for v in rawv) and not (env[kx] and env[ky]):
+                    continue
+                if not mixed and env.get(raw[2]) is True and env[kz1] != env[kz2]:
+                    continue
+                if mixed and env.get(raw[2]) is True and env[kz1]:
+                    continue
+                if len(cons) != 1:
+                    bad.append('for (Z1=0, other=O, x-test, y-test) = %r: %d paths' % (tuple(env[k_] for k_ in core_keys), len(cons)))
+                    continue
+                kd = kind(cons[0][2].get(1))
+                if mixed:
+                    want = 'P' if env[kz2] else ('Q' if env[kz1] else ('dbl' if env[kx] and env[ky] else 'general'))
                 else:
-                    bad.append('unexpected branch structure %r' % (d,))
-            need = {'self=O', 'other=O', 'P=Q', 'general'}
-            rep.check(not bad and need <= set(kinds) and all(kinds[k] for k in need), 'GUARD', '%s:add_assign:skeleton' % g,
-                      'O+Q=Q, P+O=P, equal points (X1 Z2^2 = X2 Z1^2 and Y1 Z2^3 = Y2 Z1^3) -> double, otherwise the general formula',
-                      '; '.join(bad) or 'missing cases %s' % sorted(need - set(kinds)), fx.fn(p)['span'], construct=p)
-        else:
-            rep.fail('GUARD', '%s:add_assign:anchor' % g, 'not found')
-        # ---------------------------------------------------- add_assign_mixed
-        p = fx.impl_method('CurveProjective', proj, 'add_assign_mixed')
-        if p and fx.body(p):
-            rep.fn(p)
-            n += 1
-            I = mk_interp(fx, proj, aff)
-            res = I.run(p, [('byref', P1), ('byref', A2)])
-            rep.sites(I.call_sites)
-            mu2 = Lin({'x2': 1, 'Z1': 2})
-            ms2 = Lin({'y2': 1, 'Z1': 3})
-            kinds = {}
-            bad = []
-            for pth, ret, outs in res:
-                labs = [lab_name(l) for l in pth.labels]
-                d = descr(labs)
-                o = outs.get(1)
-                dd = dict()
-                for x in d:
-                    if x[0] == 'infinity':
-                        dd['inf'] = x[1]
-                    elif x[0] == 'is_zero' and x[1] == Z1:
-                        dd['z'] = x[2]
-                eqs = [x for x in d if x[0] == 'eq']
-                if dd.get('inf') is True:
-                    kinds['other=O'] = isinstance(o, Agg) and o.items == [X1, Y1, Z1] and not eqs
-                    if not kinds['other=O']:
-                        bad.append('P + O(affine) returns %r' % (o,))
-                elif dd.get('inf') is False and dd.get('z') is True:
-                    good = isinstance(o, Agg) and o.items[:2] == [at('x2'), at('y2')] and isinstance(o.items[2], Lin) and not o.items[2].t and not eqs
-                    kinds['self=O'] = good
-                    if not good:
-                        bad.append('O + Q(affine) returns %r, expected (x2, y2, 1)' % (o,))
-                elif dd.get('inf') is False and dd.get('z') is False:
-                    seen = []
-                    for e in eqs:
-                        if same_pair(e[1], e[2], X1, mu2):
-                            seen.append(('x', e[3]))
-                        elif same_pair(e[1], e[2], Y1, ms2):
-                            seen.append(('y', e[3]))
-                        else:
-                            seen.append(('?',))
-                            bad.append('the equal-point test compares %r with %r; expected X1 vs x2*Z1^2 and Y1 vs y2*Z1^3' % (e[1], e[2]))
-                    both = dict((s[0], s[1]) for s in seen if s[0] != '?')
-                    if both.get('x') and both.get('y'):
-                        kinds['P=Q'] = isinstance(o, tuple) and o[0] == 'doubled' and isinstance(o[1], Agg) and o[1].items == [X1, Y1, Z1]
-                        if not kinds['P=Q']:
-                            bad.append('P + P(affine) returns %r, expected double(P)' % (o,))
-                    else:
-                        kinds['general'] = True
-                        if isinstance(o, tuple) and o and o[0] == 'doubled':
-                            bad.append('doubling used when the points differ')
-                else:
-                    bad.append('identity tests missing on path %r' % (d,))
-            need = {'self=O', 'other=O', 'P=Q', 'general'}
-            rep.check(not bad and need <= set(kinds) and all(kinds[k] for k in need), 'GUARD', '%s:add_assign_mixed:skeleton' % g,
-                      'P+O=P, O+Q=(x2,y2,1), equal points (X1 = x2 Z1^2 and Y1 = y2 Z1^3) -> double, otherwise the general formula',
-                      '; '.join(bad) or 'missing cases %s' % sorted(need - set(kinds)), fx.fn(p)['span'], construct=p)
-        else:
-            rep.fail('GUARD', '%s:add_assign_mixed:anchor' % g, 'not found')
+                    want = 'Q' if env[kz1] else ('P' if env[kz2] else ('dbl' if env[kx] and env[ky] else 'general'))
+                seen_kinds.add(want)
+                z1_, z2_ = env[kz1], env[kz2]
+                same = (z1_ and z2_) or (not z1_ and not z2_ and env[kx] and env[ky])
+
+                def canon_pt(k_):
+                    # the point a result kind denotes under this assignment (O = identity)
+                    if k_ == 'P':
+                        return 'O' if z1_ else 'P'
+                    if k_ == 'Q':
+                        return 'O' if z2_ else ('P' if same else 'Q')
+                    if k_ == 'dbl':
+                        return 'O' if z1_ else '2P'
+                    if k_ == 'dblQ':
+                        return 'O' if z2_ else ('2P' if same else '2Q')
+                    return k_
+                okk = canon_pt(kd) == canon_pt(want)
+                if want == 'general' and kd == 'O' and env[kx] and not env[ky] and not z1_ and not z2_:
+                    okk = True          # P + (-P)
+                if not okk:
+                    names = {'P': 'self unchanged', 'Q': 'the other operand', 'dbl': 'double()', 'dblQ': 'the double of the other operand', 'general': 'the general formula', 'O': 'the identity', 'dbl?': 'a doubling of something else'}
+                    bad.append('when (self=O, other=O, x-test, y-test) = %r the result is %s, expected %s' % (tuple(env[k_] for k_ in core_keys), names[kd], names[want]))
+            need = {'P', 'Q', 'dbl', 'general'}
+            rep.check(not bad and need <= seen_kinds, 'GUARD', '%s:%s:skeleton' % (g, nm_),
+                      'O+Q=Q, P+O=P, equal points (%s) -> double, otherwise the general formula; decided as a truth table over the tested predicates' % formx,
+                      '; '.join(sorted(set(bad))[:3]) or 'missing cases %s' % sorted(need - seen_kinds), fx.fn(p)['span'], construct=p)
         # ---------------------------------------------------- eq
         p = fx.impl_method('std::cmp::PartialEq', proj, 'eq')
         if p and fx.body(p):
